@@ -102,6 +102,12 @@ def boxExc (e : Exc) (s : St) : Loc × St :=
   | .evalErr _ => s.allocV (.exc .evalError) true false
   | .cpp k => s.allocV (.exc k) true false
 
+/-- known-finding rule 1: `var x = <name>` where the named value still carries the return-value flag -/
+def tagParamAlias (e : Node) (s : St) (l : Loc) : St :=
+  match e with
+  | .id _ _ => if (s.cell l).ret then { s with tags := 1 :: s.tags } else s
+  | _ => s
+
 def sortCaps (caps : List (Name × Loc)) : List (Name × Loc) :=
   caps.foldl (fun acc p =>
     let rec ins : List (Name × Loc) → List (Name × Loc)
@@ -215,6 +221,9 @@ def run (ρ : List FunDef) : Nat → Job → St → R
        | none => (.thrown (.evalErr .redefined), s1))
     | .assignDecl x e =>
       bnd (run ρ f (.node e) s) (fun l s1 =>
+        -- rule PARAM_TEMPORARY_ALIASED: the rhs is a *name* whose value still carries the return-value flag
+        -- (a parameter bound to a temporary): it is adopted, not copied
+        let s1 := tagParamAlias e s1 l
         bnd (cloneIfNecessary s1 l) (fun l2 s2 =>
           let s3 := s2.setCell l2 { s2.cell l2 with ret := false }
           match s3.addObject x l2 with
